@@ -33,10 +33,10 @@ K_TAIL2 = "replicate:aggregator-mentions-replicated-ref-with-two-paths"
 
 
 def S(names, stages=(0,), reps=("none", "n2"), aggs=(True, False), spell=("rel", "abs"), paths=("",), methods=("ref",),
-      styles=("same",), orders=("fwd",), comps=3, refs=2, fixed=False, graph=1):
+      styles=("same",), orders=("fwd",), comps=3, refs=2, fixed=False, graph=1, priv=(0,), aggvar=(False,), sv0=(0,), sv1=(2,)):
     """graph: 1 = every case also through graphFromFlowIR, k = every k-th case"""
     return dict(names=names, stages=stages, reps=reps, aggs=aggs, spell=spell, paths=paths, methods=methods, styles=styles,
-                orders=orders, comps=comps, refs=refs, fixed=fixed, graph=graph)
+                orders=orders, comps=comps, refs=refs, fixed=fixed, graph=graph, priv=priv, aggvar=aggvar, sv0=sv0, sv1=sv1)
 
 
 SLICES = {
@@ -48,6 +48,12 @@ SLICES = {
         "shape": S(["p", "q", "r"], reps=("none", "n1", "n2", "n3"), spell=("rel",), orders=("fwd", "rev"), fixed=True, graph=1),
         "many": S(["p", "q"], reps=("none", "n11"), comps=2, fixed=True),
         "vars": S(["p", "q"], stages=(0, 1), reps=ALL_REPS, spell=("abs",), comps=2, fixed=True),
+        # variable scoping: the count / the aggregate flag through a variable that the own and the OTHER stage and SIBLING
+        # components (same and other stage) define with other values; both roles for both names, both document orders
+        "scopes": S(["p", "q"], stages=(0, 1), reps=("none", "vg", "vs", "vc"), spell=("abs",), comps=2, refs=1, fixed=True,
+                    priv=(0, 1), aggvar=(False, True), sv0=(0, 1), sv1=(0, 2), orders=("fwd", "rev")),
+        "scopes3": S(["p", "q", "r"], stages=(0,), reps=("none", "vg", "vs"), aggs=(False,), spell=("rel",), refs=1, fixed=True,
+                     priv=(0, 1, 3), sv0=(0, 1), orders=("fwd", "rev"), graph=4),
         "refs": S(["p", "q"], paths=("", "out.txt", "d/f.x"), methods=("ref", "copy", "output"),
                   styles=("same", "flip", "tail", "tail2"), comps=2, refs=1, fixed=True),
     },
@@ -67,6 +73,10 @@ SLICES = {
                   styles=("same", "flip", "tail", "tail2"), comps=2, refs=1, fixed=True),
         "many": S(["p", "q", "r"], reps=("none", "n11"), comps=3, spell=("rel",), fixed=True, graph=4),
         "refs3": S(["a", "ba", "c"], paths=("", "out.txt"), styles=("same", "tail"), spell=("rel",), graph=8),
+        "scopes": S(["p", "q"], stages=(0, 1), reps=("none", "n2", "vg", "vs", "vc"), spell=("abs",), comps=2, refs=1, fixed=True,
+                    priv=(0, 1, 3), aggvar=(False, True), sv0=(0, 1), sv1=(0, 2, 3), orders=("fwd", "rev"), graph=2),
+        "scopes3": S(["p", "q", "r"], stages=(0, 1), reps=("none", "vg", "vs"), aggs=(False,), spell=("abs",), refs=1, fixed=True,
+                     priv=(0, 1), sv0=(0, 1), sv1=(0, 2), orders=("fwd", "rev"), graph=8),
     },
 }
 
@@ -89,10 +99,12 @@ def _set(xs):
 def write_cfg(path, sl, emit, invariants, spec_props=""):
     body = ("CONSTANTS\n  Names = %s\n  Stages = %s\n  RepChoices = %s\n  AggChoices = %s\n  Spellings = %s\n  Paths = %s\n"
             "  Methods = %s\n  ArgStyles = %s\n  DocOrders = %s\n  MaxComps = %d\n  MaxRefs = %d\n  FixedNames = %s\n  Emit = %s\n"
+            "  PrivChoices = %s\n  AggVarChoices = %s\n  StageVals0 = %s\n  StageVals1 = %s\n"
             "SPECIFICATION Spec\n%sCHECK_DEADLOCK FALSE\n" % (
                 _set(sl["names"]), _set(sl["stages"]), _set(sl["reps"]), _set(sl["aggs"]), _set(sl["spell"]), _set(sl["paths"]),
                 _set(sl["methods"]), _set(sl["styles"]), _set(sl["orders"]), sl["comps"], sl["refs"],
                 "TRUE" if sl["fixed"] else "FALSE", "TRUE" if emit else "FALSE",
+                _set(sl["priv"]), _set(sl["aggvar"]), _set(sl["sv0"]), _set(sl["sv1"]),
                 "".join("INVARIANT %s\n" % i for i in invariants)))
     with open(path, "w") as f:
         f.write(body)
@@ -148,8 +160,10 @@ def classify(case):
     feats = []
     if any(c["s"] == 1 for c in comps):
         feats.append("stages")
-    if any(c["rep"].startswith("v") for c in comps):
+    if any(c["rep"].startswith("v") or c.get("av") for c in comps):
         feats.append("variable")
+    if any(c.get("pv") for c in comps):
+        feats.append("private-variables")
     if any(c["g"] for c in comps):
         feats.append("aggregate")
     if any(r[2] for c in comps for r in c["r"]):
@@ -215,7 +229,7 @@ def compare(case, real, path):
                 bad.append("%s: %s is not a copy but has replica variable %r" % (path, nid, g["replica"]))
             if not e["g"] and g["rep"] not in (None, 0):
                 bad.append("%s: %s is outside the region but has workflowAttributes.replicate %r" % (path, nid, g["rep"]))
-        if bool(g["agg"]) != bool(e["g"]):
+        if not case["comps"][e["b"] - 1].get("av") and bool(g["agg"]) != bool(e["g"]):     # (a flag given as %(ag)s stays a string)
             bad.append("%s: %s aggregate flag %r, spec %r" % (path, nid, g["agg"], e["g"]))
         if g["preds"] is not None:
             epreds = sorted({"stage%d.%s" % (r[0], r[1]) for r in e["r"]})
